@@ -67,7 +67,7 @@ type Val struct {
 	Orig string // KFunc loaded from a struct field: "pkg.Type.field"
 }
 
-func intVal(t types.Type, s string) Val  { return Val{K: KInt, T: t, S: s} }
+func intVal(t types.Type, s string) Val { return Val{K: KInt, T: t, S: s} }
 func boolVal(s string) Val              { return Val{K: KBool, T: types.Typ[types.Bool], S: s} }
 func strVal(t types.Type, s string) Val { return Val{K: KStr, T: t, S: s} }
 
